@@ -376,7 +376,7 @@ func VfC03_DeepMemory() {
 	vcallee := m.NewFunc("vcallee", it, ir.NewParam("a", it))
 	vcallee.Sig.Variadic = true
 	f := m.NewFunc(hLetterIn("fname", 'a', 'e'), types.Void,
-		ir.NewParam("x", it), ir.NewParam("p", types.NewPointer(it)), ir.NewParam("v", types.NewVector(4, it)), ir.NewParam("d", types.Double), ir.NewParam("va", types.I8Ptr))
+		ir.NewParam("x", it), ir.NewParam("p", types.NewPointer(it)), ir.NewParam("v", types.NewVector(4, it)), ir.NewParam("d", types.Double), ir.NewParam("va", types.I8Ptr), ir.NewParam("ps", types.NewPointer(types.NewStruct(it, types.NewArray(2, types.I8), types.NewStruct(types.I8, types.I64)))))
 	b := f.NewBlock("entry")
 	x, p, v, d, va := value.Value(f.Params[0]), value.Value(f.Params[1]), value.Value(f.Params[2]), value.Value(f.Params[3]), value.Value(f.Params[4])
 	one := constant.NewInt(types.I32, 1)
@@ -388,7 +388,10 @@ func VfC03_DeepMemory() {
 	b.NewAtomicRMW(enum.AtomicOpAdd, p, x, enum.AtomicOrderingSequentiallyConsistent)
 	st := types.NewStruct(it, types.NewArray(2, types.I8), types.NewStruct(types.I8, types.I64))
 	sp := b.NewAlloca(st)
-	b.NewGetElementPtr(st, sp, constant.NewInt(types.I32, 0), one, one)
+	// (the getelementptr is taken from a parameter: its cached result type
+	// depends on the type of its base, which a later variation of the alloca's
+	// address space would change under it)
+	b.NewGetElementPtr(st, f.Params[5], constant.NewInt(types.I32, 0), one, one)
 	agg := b.NewLoad(st, sp)
 	b.NewExtractValue(agg, 1, 0)
 	b.NewInsertValue(agg, x, 0)
@@ -468,9 +471,19 @@ func VfC03_DeepModule() {
 	}
 	a := hLetterIn("a", 'a', 'e')
 	m := ir.NewModule()
+	// optional parts are exported fields set after construction: an address
+	// space on a global variable / on a function, before their first use
+	asOf := vfChoice("addrspace.of", 3)
 	g1 := m.NewGlobalDef(nm(0, a+"1"), constant.NewInt(types.I32, int64(vfByte("k")&7)))
+	if asOf == 1 {
+		g1.AddrSpace = 3
+	}
 	g2 := m.NewGlobalDef(nm(1, a+"2"), g1)
 	decl := m.NewFunc(nm(2, a+"3"), types.NewPointer(types.NewFunc(types.I32)))
+	if asOf == 2 {
+		decl.AddrSpace = 2
+		m.NewGlobalDef("fnptr", decl)
+	}
 	def := m.NewFunc(nm(3, a+"4"), types.I32, ir.NewParam("", types.I32))
 	b := def.NewBlock("")
 	v := b.NewAdd(def.Params[0], constant.NewInt(types.I32, 1))
@@ -491,17 +504,17 @@ func VfC03_DeepModule() {
 	if err != nil {
 		return
 	}
-	vfAssert("C03.deepmodule.same-shape", vfAnd(vfAnd(len(m2.Globals) == 2, len(m2.Funcs) == 2), vfAnd(len(m2.Aliases) == 1, len(m2.IFuncs) == 1)))
-	if len(m2.Globals) != 2 || len(m2.Funcs) != 2 || len(m2.Aliases) != 1 || len(m2.IFuncs) != 1 {
+	vfAssert("C03.deepmodule.same-shape", vfAnd(vfAnd(len(m2.Globals) == len(m.Globals), len(m2.Funcs) == 2), vfAnd(len(m2.Aliases) == 1, len(m2.IFuncs) == 1)))
+	if len(m2.Globals) != len(m.Globals) || len(m2.Funcs) != 2 || len(m2.Aliases) != 1 || len(m2.IFuncs) != 1 {
 		return
 	}
 	for i := range m.Globals {
 		x, y := m.Globals[i], m2.Globals[i]
-		vfAssert("C03.deepmodule.global", vfAnd(vfEqStr(x.Ident(), y.Ident()), vfAnd(hGenTy(x.ContentType, y.ContentType), hGenVal(x.Init, y.Init))))
+		vfAssert("C03.deepmodule.global", vfAnd(vfAnd(vfEqStr(x.Ident(), y.Ident()), hGenTy(x.Type(), y.Type())), vfAnd(hGenTy(x.ContentType, y.ContentType), hGenVal(x.Init, y.Init))))
 	}
 	for i := range m.Funcs {
 		x, y := m.Funcs[i], m2.Funcs[i]
-		vfAssert("C03.deepmodule.func", vfAnd(vfEqStr(x.Ident(), y.Ident()), vfAnd(hGenTy(x.Sig, y.Sig), len(x.Blocks) == len(y.Blocks))))
+		vfAssert("C03.deepmodule.func", vfAnd(vfAnd(vfEqStr(x.Ident(), y.Ident()), hGenTy(x.Type(), y.Type())), vfAnd(hGenTy(x.Sig, y.Sig), len(x.Blocks) == len(y.Blocks))))
 	}
 	vfAssert("C03.deepmodule.alias", vfAnd(vfEqStr(al.Ident(), m2.Aliases[0].Ident()), hGenVal(al.Aliasee, m2.Aliases[0].Aliasee)))
 	vfAssert("C03.deepmodule.ifunc", vfAnd(vfEqStr(ifn.Ident(), m2.IFuncs[0].Ident()), hGenVal(ifn.Resolver, m2.IFuncs[0].Resolver)))
